@@ -7,6 +7,7 @@ Every string (names, values, contents) travels hex-encoded (UTF-8 bytes), `-` = 
   bind <r|s> <jobattrs> <clsattrs> <ev> <ev> ...
       attrs = <exe|->,<nprocs|->,<memory|->,<k=v&k=v|->        ev = c<i>:<attrs> | u<i> | m<i>:<attrs> (attributes reassigned) | d<i> (driver dropped)
       → one token per `u` event:  <exe|->,<nprocs>,<memory>,<k=v&… sorted|->   (none = unknown driver)
+  lookup <baseenv> <envars> <existing executable files hex,…|-> <prog hex> …   → the file started for each prog (hex) | none
   run <r|s> <baseenv k=v&…|-> <envars k=v&…|-> <files name:hex&…|-> <ret none|-|name&name…> <cmd>;<cmd>;…
       cmd = <name|->/<code>/<out|->/<err|->/<eff,eff…|->      code = return code (negative: killed by that signal)
       eff = w:<name>:<data|->  |  c:<src>:<dst>  |  r:<name>  |  e:<var>:<dst>
@@ -150,6 +151,15 @@ def handle (payload : String) : String :=
         | .use _ => some (match o with | some b => showBound b | none => "none")
         | _ => none
       if uses.isEmpty then "-" else " ".intercalate uses
+    | _, _, _, _ => "err:bad-request"
+  | "lookup" :: base :: envars :: has :: progs =>
+    match parseEnv? base, parseEnv? envars, (splitList has ",").mapM strOfHex?, progs.mapM strOfHex? with
+    | some base, some envars, some has, some progs =>
+      let inp : JobInput := { jid := "j", commands := [], files := [], returnFiles := none, envars := envars }
+      let env := jobEnv base inp
+      " ".intercalate (progs.map fun p => match resolveProgram env (fun f => has.contains f) p with
+        | some f => hexOfStr f
+        | none => "none")
     | _, _, _, _ => "err:bad-request"
   | ["run", v, base, envars, files, ret, cmds] =>
     match parseVariant? v, parseEnv? base, parseEnv? envars, parseFiles? files, parseRet? ret,
